@@ -141,6 +141,20 @@ type Case struct {
 	Prefill bool  `json:"prefill,omitempty"` // every leaf holds garbage of its type before the first NewFlagSet
 	Prior   *Case `json:"prior,omitempty"`   // reload: this round (same struct type, other sources) ran first on the same struct value; priors may be chained
 
+	// The built-in usage flag on the command line (it suspends nothing: the fields are expected as
+	// without it; ShowUsage() is merely counted). Help: 0 absent, 1 -help, 2 --help, 3 -help=true,
+	// 4 --help=true, 5 -help=false. HelpPos: 0 shuffled among the flags, 1 first, 2 last.
+	Help    int `json:"help,omitempty"`
+	HelpPos int `json:"help_pos,omitempty"`
+
+	// FirstParse: an earlier Parse call on the SAME FlagSet (one NewFlagSet), with sources of its
+	// own. Fail (set on that earlier call) makes it fail: "unknown-flag", "missing-value",
+	// "bad-value" (cli), "bad-env", "bad-json"; "" = it is an ordinary call and judged as such.
+	// The call under test follows on the same FlagSet: if it returns nil, every field must follow
+	// its sources only; if it is refused with an error nothing is judged (that is counted).
+	FirstParse *Case  `json:"first_parse,omitempty"`
+	Fail       string `json:"fail,omitempty"`
+
 	// Peers run concurrently with the last round, each in its own goroutine on its own struct value
 	// of the same struct type with its own FlagSet: same tags, JSON and environment (those are
 	// process-global), but its own command line.
@@ -885,12 +899,132 @@ func (h *harness) count(k string, n int64) {
 // runRound sets the sources of one round for real, calls NewFlagSet and Parse of glb on the
 // given struct value and compares every leaf with the value of its highest-priority source.
 func runRound(cs *Case, h *harness, ptr reflect.Value, leaves []leafRef, history string) (key, expected, observed string) {
+	if cs.FirstParse != nil {
+		return runTwoParses(cs, h, ptr, leaves, history)
+	}
 	src, bk, bo := h.setSources(cs, leaves)
 	defer src.cleanup()
 	if bk != "" {
 		return bk, "", bo
 	}
 	return h.parseAndCompare(cs, ptr, leaves, buildArgv(cs, leaves, src.cfgGroup), src.doc, history)
+}
+
+// how a Parse call is judged
+const (
+	judgeStrict = iota // an error of Parse is a violation
+	judgeIfOK          // an error of Parse is legitimate (counted); a nil return is judged by the call's sources
+	judgeNever         // the call is meant to fail: nothing is judged
+)
+
+// runTwoParses: one NewFlagSet, then two Parse calls on that FlagSet, each with its own sources
+// really set while it runs. The first is either an ordinary call (judged as usual) or made to fail
+// after it has seen valid sources; the second - the call under test - is judged by its own sources
+// whenever it returns nil.
+func runTwoParses(cs *Case, h *harness, ptr reflect.Value, leaves []leafRef, history string) (key, expected, observed string) {
+	first := cs.FirstParse
+	var fl []leafRef
+	collectLeaves(first.Root, nil, nil, &fl)
+	if k, o := selfCheck(fl); k != "" {
+		return k, "", "first parse: " + o
+	}
+	if buildType(first.Root) != ptr.Type().Elem() || first.FirstParse != nil || first.Prior != nil || len(first.Peers) > 0 {
+		return brokenPrefix + "first-parse-type", "", "the earlier Parse call does not use the same struct type"
+	}
+	before := capture(ptr, leaves, history)
+	fs, k, e, o := h.open(ptr, leaves)
+	if k != "" {
+		return k, e, o
+	}
+	fail := effectiveFail(first, fl)
+	// ---- first call
+	src1, bk, bo := h.setSources(first, fl)
+	if bk != "" {
+		src1.cleanup()
+		return bk, "", bo
+	}
+	mode := judgeStrict
+	if fail != "" {
+		mode = judgeNever
+	}
+	k, e, o, ok1 := h.parseJudge(fs, first, ptr, fl, buildArgv(first, fl, src1.cfgGroup), src1.doc, history, before, mode)
+	src1.cleanup()
+	if k != "" {
+		return k + "/parse=1of2", e, o
+	}
+	switch {
+	case fail == "":
+		h.count("flagset_first_parse_ordinary", 1)
+	case ok1:
+		h.count("flagset_first_parse_meant_to_fail_but_accepted", 1) // not this property's business
+	default:
+		h.count("flagset_first_parse_failed_as_planned_"+fail, 1)
+	}
+	// ---- the call under test, on the same FlagSet
+	src2, bk, bo := h.setSources(cs, leaves)
+	defer src2.cleanup()
+	if bk != "" {
+		return bk, "", bo
+	}
+	label := "reparse-after-" + fail
+	if fail == "" {
+		label = "reparse-after-ok"
+	}
+	if history != "" {
+		label = history + "+" + label
+	}
+	k, e, o, ok2 := h.parseJudge(fs, cs, ptr, leaves, buildArgv(cs, leaves, src2.cfgGroup), src2.doc, label, capture(ptr, leaves, label), judgeIfOK)
+	if ok2 {
+		h.count("flagset_second_parse_accepted_and_judged", 1)
+	} else if k == "" {
+		h.count("flagset_second_parse_refused", 1)
+	}
+	return k, e, o
+}
+
+// effectiveFail: the planned way to make the first call fail, or the fallback when the struct has
+// no field it could be played on.
+func effectiveFail(cs *Case, leaves []leafRef) string {
+	switch cs.Fail {
+	case "bad-value":
+		if failLeaf(leaves, false) == nil {
+			return "unknown-flag"
+		}
+	case "bad-env":
+		if failLeaf(leaves, true) == nil {
+			return "unknown-flag"
+		}
+	}
+	return cs.Fail
+}
+
+// failLeaf: the first field whose type rejects the text "@@bad@@" (anything but string); for the
+// environment it must not be mentioned on the command line (which would shadow the variable).
+func failLeaf(leaves []leafRef, forEnv bool) *leafRef {
+	for i, l := range leaves {
+		if l.t != TString && !(forEnv && l.f.Mask&SrcCli != 0) {
+			return &leaves[i]
+		}
+	}
+	return nil
+}
+
+const badText = "@@bad@@"
+
+// capture notes what the fields hold (diagnosis of stale values only).
+func capture(ptr reflect.Value, leaves []leafRef, history string) []any {
+	if history == "" {
+		return nil
+	}
+	root := ptr.Elem()
+	before := make([]any, len(leaves))
+	for i, l := range leaves {
+		before[i] = root.FieldByIndex(l.index).Interface()
+		if b, ok := before[i].([]byte); ok {
+			before[i] = append([]byte(nil), b...)
+		}
+	}
+	return before
 }
 
 // runConcurrent: the sources shared by the whole process (files, environment) are set once; the
@@ -1028,10 +1162,10 @@ func (h *harness) setSources(cs *Case, leaves []leafRef) (out sources, key, obse
 		}
 	}
 
-	var cfgArg string
+	var cfgArg, abs string
 	if cs.Carrier == CarFile || cs.Carrier == CarBoth {
 		name := fileNames[cs.FileName%len(fileNames)]
-		abs := filepath.Join(h.tmp, "home", name)
+		abs = filepath.Join(h.tmp, "home", name)
 		if dir := filepath.Dir(abs); !h.dirs[dir] {
 			if err := os.MkdirAll(dir, 0o755); err != nil {
 				return out, brokenPrefix + "mkdir", err.Error()
@@ -1080,6 +1214,19 @@ func (h *harness) setSources(cs *Case, leaves []leafRef) (out sources, key, obse
 		}
 	}
 
+	switch effectiveFail(cs, leaves) { // a first Parse call that is meant to fail (see Case.Fail)
+	case "bad-env":
+		setenv(failLeaf(leaves, true).f.Env, badText)
+	case "bad-json":
+		broken := `{"unterminated": [1, 2`
+		if abs != "" {
+			if err := os.WriteFile(abs, []byte(broken), 0o644); err != nil {
+				return out, brokenPrefix + "write", err.Error()
+			}
+		} else {
+			setenv("CFG_CONFIG_B64", base64.StdEncoding.EncodeToString([]byte(broken)))
+		}
+	}
 	out.doc = doc
 	if cs.Carrier != CarNone {
 		h.maxOf("json_document_bytes", int64(len(doc)))
@@ -1117,10 +1264,31 @@ func buildArgv(cs *Case, leaves []leafRef, cfgGroup []string) []string {
 			}
 		}
 	}
+	var help group
+	if cs.Help > 0 {
+		help = group{[...]string{"-help", "--help", "-help=true", "--help=true", "-help=false"}[(cs.Help-1)%5]}
+		if cs.HelpPos == 0 {
+			groups = append(groups, help)
+		}
+	}
 	rand.New(rand.NewSource(cs.Shuffle)).Shuffle(len(groups), func(i, j int) { groups[i], groups[j] = groups[j], groups[i] })
+	if help != nil && cs.HelpPos == 1 {
+		groups = append([]group{help}, groups...)
+	}
+	if help != nil && cs.HelpPos >= 2 {
+		groups = append(groups, help)
+	}
 	argv := []string{}
 	for _, g := range groups {
 		argv = append(argv, g...)
+	}
+	switch effectiveFail(cs, leaves) { // after the valid flags, so that they have been seen
+	case "unknown-flag":
+		argv = append(argv, "-no-such-flag=1")
+	case "bad-value":
+		argv = append(argv, "-"+failLeaf(leaves, false).f.Flag+"="+badText)
+	case "missing-value":
+		return append(argv, "-config") // the last token: its value is missing
 	}
 	return append(argv, cs.Tail...)
 }
@@ -1128,6 +1296,30 @@ func buildArgv(cs *Case, leaves []leafRef, cfgGroup []string) []string {
 // parseAndCompare is the observation: NewFlagSet and Parse of glb on the given struct value, then
 // every leaf against the value of its highest-priority source. Safe for concurrent use.
 func (h *harness) parseAndCompare(cs *Case, ptr reflect.Value, leaves []leafRef, argv []string, doc, history string) (key, expected, observed string) {
+	before := capture(ptr, leaves, history)
+	fs, k, e, o := h.open(ptr, leaves)
+	if k != "" {
+		return k, e, o
+	}
+	k, e, o, _ = h.parseJudge(fs, cs, ptr, leaves, argv, doc, history, before, judgeStrict)
+	return k, e, o
+}
+
+// open calls NewFlagSet on the struct value.
+func (h *harness) open(ptr reflect.Value, leaves []leafRef) (fs *config.FlagSet, key, expected, observed string) {
+	var err error
+	if p := catch(func() { fs, err = config.NewFlagSet(ptr.Interface()) }); p != "" {
+		return nil, "panic:NewFlagSet", "no panic", p
+	}
+	if err != nil {
+		return nil, "newflagset-error:" + errKey(err, h, leaves, 0), "NewFlagSet accepts the struct (tags: " + tagList(leaves) + ")", err.Error()
+	}
+	return fs, "", "", ""
+}
+
+// parseJudge calls Parse on the FlagSet and - depending on mode and outcome - compares every leaf
+// with the value of its highest-priority source. before is what the fields held earlier (diagnosis).
+func (h *harness) parseJudge(fs *config.FlagSet, cs *Case, ptr reflect.Value, leaves []leafRef, argv []string, doc, history string, before []any, mode int) (key, expected, observed string, parsedOK bool) {
 	stats := map[string]int64{}
 	cells := map[string]struct{}{}
 	defer func() {
@@ -1141,31 +1333,27 @@ func (h *harness) parseAndCompare(cs *Case, ptr reflect.Value, leaves []leafRef,
 		h.mu.Unlock()
 	}()
 	root := ptr.Elem()
-	var before []any // what the fields held when the struct was handed over (diagnosis only)
-	if history != "" {
-		before = make([]any, len(leaves))
-		for i, l := range leaves {
-			before[i] = root.FieldByIndex(l.index).Interface()
-			if b, ok := before[i].([]byte); ok {
-				before[i] = append([]byte(nil), b...)
-			}
+	var err error
+	if p := catch(func() { err = fs.Parse(argv) }); p != "" {
+		return "panic:Parse", "no panic", p + " argv=" + fmt.Sprintf("%q", argv), false
+	}
+	if err != nil {
+		if mode != judgeStrict {
+			return "", "", "", false
+		}
+		return "parse-error:" + errKey(err, h, leaves, 3, 2), fmt.Sprintf("Parse(%q) = nil; env %s; json %s", argv, envList(leaves), strings.TrimSpace(doc)), err.Error(), false
+	}
+	if mode == judgeNever {
+		return "", "", "", true
+	}
+	parsedOK = true
+	stats["parses"]++
+	if cs.Help > 0 {
+		stats["parses_with_usage_flag"]++
+		if fs.ShowUsage() {
+			stats["parses_with_show_usage_true"]++
 		}
 	}
-	var fs *config.FlagSet
-	var err error
-	if p := catch(func() { fs, err = config.NewFlagSet(ptr.Interface()) }); p != "" {
-		return "panic:NewFlagSet", "no panic", p + " argv=" + fmt.Sprintf("%q", argv)
-	}
-	if err != nil {
-		return "newflagset-error:" + errKey(err, h, leaves, 0), "NewFlagSet accepts the struct (tags: " + tagList(leaves) + ")", err.Error()
-	}
-	if p := catch(func() { err = fs.Parse(argv) }); p != "" {
-		return "panic:Parse", "no panic", p + " argv=" + fmt.Sprintf("%q", argv)
-	}
-	if err != nil {
-		return "parse-error:" + errKey(err, h, leaves, 3, 2), fmt.Sprintf("Parse(%q) = nil; env %s; json %s", argv, envList(leaves), strings.TrimSpace(doc)), err.Error()
-	}
-	stats["parses"]++
 
 	// ---- compare
 	for i, l := range leaves {
@@ -1222,9 +1410,9 @@ func (h *harness) parseAndCompare(cs *Case, ptr reflect.Value, leaves []leafRef,
 		if history != "" {
 			expected += "; struct history: " + history + ", the field held " + showVal(l.t, before[i]) + " when NewFlagSet was called"
 		}
-		return key, expected, observed
+		return key, expected, observed, true
 	}
-	return "", "", ""
+	return "", "", "", true
 }
 
 func catch(f func()) (p string) {
@@ -1315,6 +1503,13 @@ func shape(cs *Case) (sig string, nontrivial bool) {
 	fmt.Fprintf(&sb, "%s/%d/%v;", cs.Carrier, cs.PathKind, cs.Decoy)
 	if cs.Prefill {
 		sb.WriteString("prefilled;")
+	}
+	if cs.Help > 0 {
+		fmt.Fprintf(&sb, "help%d/%d;", cs.Help, cs.HelpPos)
+	}
+	if cs.FirstParse != nil {
+		fs, _ := shape(cs.FirstParse)
+		sb.WriteString("reparse-after[" + cs.FirstParse.Fail + "]{" + fs + "};")
 	}
 	if cs.Prior != nil {
 		ps, _ := shape(cs.Prior)
